@@ -37,6 +37,8 @@ CHECKS.update({
                  "fault choice at every interaction point of the bounded model; terminal fault moved to every byte offset for a subset of base streams (6 quick / 40 thorough). A failed selector keeps failing."),
     "C13": _sess("Mon_C13", "after abandonment every socket and selector is closed",
                  "abandonment at every event index of every bounded behaviour x 4 mechanisms; selector closure observed through a logging subclass of lomond's selector class."),
+    "C15": _sess("Mon_C15", "poll spacing in [p, 2p], automatic pings per period, Unresponsive iff silence > t (noticed within p), forced disconnect in [tc+c, tc+c+p], never with 0/None",
+                 "parameter grid of 8 (quick) / 48 (thorough) (poll, ping_rate, ping_timeout, close_timeout) combinations x all histories of <= 4 time-outs and <= 2 arrivals on an integer tick grid, application close at Ready or any Poll, permanent silence; closes issued before Ready are outside the stated scope."),
     "C14": _sess("Mon_C14", "pongs = answerable pings (payload, order, multiplicity), each written before its Ping event; none with auto_pong off; failing pong writes do not disturb the event stream (twin run)",
                  "<= 3 (quick) / 4 frames incl. 125-byte all-byte-values ping blobs, several items per read, application send/close reactions, failing writes."),
 })
